@@ -57,7 +57,50 @@ def gen_statement(rng: random.Random, mod: str, hostile: bool) -> tuple[str, dic
         return f"from {target} import *", {"t": "wild", "module": target}
     k = rng.randint(0, 3)
     names = rng.sample(NAMES + ["ghost"], k) if hostile else rng.sample(NAMES, k)
+    if rng.random() < 0.45:
+        # __all__ composed from another module's __all__: the module is named by a bare name (bound here or not, to a
+        # module, to an alias of a module, to anything), by a dotted path (possibly through a name bound in a package),
+        # or is this very module (`__all__ += __all__`)
+        kind = rng.random()
+        if kind < 0.45:
+            ref = rng.choice(NAMES + ["a", "b", "s", "c", "d"])
+        elif kind < 0.85:
+            ref = target
+        else:
+            ref = ""
+        expr = f"{ref}.__all__" if ref else "__all__"
+        if kind < 0.45 and rng.random() < 0.2:
+            expr = ref   # a bare name standing for a list (`from m import __all__ as X`)
+        bare = not expr.endswith("__all__")
+        return compose_all(rng, names, expr), {"t": "allref", "ref": expr if bare else expr.removesuffix("__all__").rstrip("."),
+                                               "bare": bare, "names": names}
     return f"__all__ = {names!r}", {"t": "all", "names": names}
+
+
+COMPOSITIONS = ["augment", "augment-only", "plus-right", "plus-left", "star-list", "star-tuple", "bare", "annotated", "augment-star"]
+
+
+def compose_all(rng: random.Random, names: list[str], expr: str, form: str | None = None) -> str:
+    """One or two statements that build ``__all__`` from the literal ``names`` and from the list ``expr``."""
+    form = form or rng.choice(COMPOSITIONS)
+    lit = repr(list(names))
+    if form == "augment":
+        return f"__all__ = {lit}\n__all__ += {expr}"
+    if form == "augment-only":   # valid only after an earlier assignment; griffe sees it with exports possibly unset
+        return f"__all__ += {expr}"
+    if form == "plus-right":
+        return f"__all__ = {lit} + {expr}"
+    if form == "plus-left":
+        return f"__all__ = {expr} + {lit}"
+    if form == "star-list":
+        return f"__all__ = [*{expr}, " + ", ".join(repr(n) for n in names) + "]"
+    if form == "star-tuple":
+        return "__all__ = (" + "".join(repr(n) + ", " for n in names) + f"*{expr},)"
+    if form == "bare":
+        return f"__all__ = {expr}"
+    if form == "annotated":
+        return f"__all__: list[str] = {lit} + [*{expr}]"
+    return f"__all__ = {lit}\n__all__ += [*{expr}]"
 
 
 def gen_graph(rng: random.Random, hostile: bool = True) -> tuple[dict[str, str], dict[str, list[dict]]]:
@@ -181,3 +224,243 @@ def gen_ring(rng: random.Random) -> tuple[dict[str, str], dict[str, list[dict]]]
             files[mod_file(mod)] = s + "\n"
             descs[mod] = [d]
     return files, descs
+
+
+# -- __all__ composition (`__all__ += other.__all__`) ---------------------------------------------------------------------
+OWN = ["A0", "A1", "A2", "A3"]
+HOPS_DIRECT = ["from", "import", "import-as", "relative", "all-name"]
+HOPS_ALIASED = ["facade", "facade-as", "facade-dotted", "facade-chain", "facade-all-name"]
+HOPS_OTHER = ["facade-wildcard", "facade-cyclic", "unbound"]
+
+
+def _bind(rng: random.Random, where: str, name: str, module: str) -> tuple[str, dict]:
+    """A statement placed in module ``where`` that binds ``name`` to the module ``module``."""
+    if "." in module and rng.random() < 0.6:
+        pkg, leaf = module.rsplit(".", 1)
+        rel = _relative(where, pkg)
+        if rel is not None and rng.random() < 0.4:
+            return f"from {'.' * rel} import {leaf} as {name}", {"t": "from", "rel": rel, "module": "", "name": leaf, "as": name}
+        return f"from {pkg} import {leaf} as {name}", {"t": "from", "module": pkg, "name": leaf, "as": name}
+    return f"import {module} as {name}", {"t": "import", "module": module, "as": name}
+
+
+def _relative(mod: str, pkg: str) -> int | None:
+    """Level of the relative import that names package ``pkg`` from inside ``mod`` (None when ``pkg`` does not contain it)."""
+    base = mod.split(".") if mod in PACKAGES else mod.split(".")[:-1]
+    parts = pkg.split(".")
+    if base[: len(parts)] != parts:
+        return None
+    return len(base) - len(parts) + 1
+
+
+def gen_allring(rng: random.Random) -> tuple[dict[str, str], dict[str, list[dict]]]:  # noqa: C901, PLR0912, PLR0915
+    """Chains and rings of ``__all__`` compositions: every module builds its ``__all__`` from its own names and from the
+    ``__all__`` of the next module, which it names directly (from-import, dotted import, import-as, relative import, the
+    list itself imported under a name) or *through aliases* bound in other modules (a facade re-exporting the module under
+    another name, a dotted path through such a name, a chain of two facades, the list imported through the facade), or not
+    at all (name only reachable through a wildcard, name that is an alias cycle, unbound name).  Rings of 1-4 modules, closed or open (an open chain
+    ends in a plain list, a missing module or a non-module), one hop style for the whole ring or one per hop."""
+    k = rng.choice([1, 2, 2, 3, 3, 4])
+    ring = rng.sample(MODULES, k)
+    closed = rng.random() < 0.7
+    styles = HOPS_DIRECT + HOPS_ALIASED + HOPS_OTHER
+    pool = rng.choice([HOPS_DIRECT, HOPS_ALIASED, HOPS_ALIASED, styles, styles])
+    uniform = rng.choice(pool) if rng.random() < 0.4 else None
+    stmts: dict[str, list[tuple[str, dict]]] = {m: [] for m in MODULES}
+    tail: dict[str, list[tuple[str, dict]]] = {m: [] for m in MODULES}
+    for i, mod in enumerate(ring):
+        own = OWN[i]
+        name = NAMES[i]
+        body = stmts[mod]
+        body.append((rng.choice([f"def {own}(): ...", f"class {own}: ...", f"{own} = 1"]), {"t": "def", "name": own}))
+        last = i == len(ring) - 1
+        if last and not closed:
+            end = rng.random()
+            if end < 0.4:
+                body.append((f"__all__ = [{own!r}]", {"t": "all", "names": [own]}))
+                continue
+            nxt = rng.choice(MISSING_MODULES) if end < 0.7 else f"{mod}.{own}"   # a missing module / a function, class or attribute
+        else:
+            nxt = ring[(i + 1) % len(ring)]
+        style = uniform or rng.choice(pool)
+        facade = rng.choice([m for m in MODULES if m != mod] if rng.random() < 0.9 else MODULES)
+        bare = False
+        if style in ("from", "relative") and "." in nxt:
+            pkg, leaf = nxt.rsplit(".", 1)
+            rel = _relative(mod, pkg) if style == "relative" else None
+            if rel is not None:
+                imp = (f"from {'.' * rel} import {leaf}", {"t": "from", "rel": rel, "module": "", "name": leaf})
+            else:
+                imp = (f"from {pkg} import {leaf}", {"t": "from", "module": pkg, "name": leaf})
+            ref = leaf
+        elif style in ("from", "relative", "import"):
+            imp = (f"import {nxt}", {"t": "import", "module": nxt, "as": None})
+            ref = nxt
+        elif style == "import-as":
+            imp = (f"import {nxt} as {name}", {"t": "import", "module": nxt, "as": name})
+            ref = name
+        elif style == "all-name":
+            imp = (f"from {nxt} import __all__ as {name}", {"t": "from", "module": nxt, "name": "__all__", "as": name})
+            ref, bare = name, True
+        elif style == "unbound":
+            imp = None
+            ref = rng.choice([name, nxt, f"{facade}.{name}"])
+        elif style == "facade-cyclic":
+            # the name the module is reached through is an alias cycle (two facades importing it from each other)
+            second = rng.choice([m for m in MODULES if m not in (mod, facade)])
+            tail[facade].append((f"from {second} import {name}", {"t": "from", "module": second, "name": name}))
+            tail[second].append((f"from {facade} import {name}", {"t": "from", "module": facade, "name": name}))
+            if rng.random() < 0.5:
+                imp = (f"from {facade} import {name}", {"t": "from", "module": facade, "name": name})
+                ref = name
+            else:
+                imp = (f"import {facade}", {"t": "import", "module": facade, "as": None})
+                ref = f"{facade}.{name}"
+        else:
+            tail[facade].append(_bind(rng, facade, name, nxt))
+            if style == "facade":
+                imp = (f"from {facade} import {name}", {"t": "from", "module": facade, "name": name})
+                ref = name
+            elif style == "facade-as":
+                other = rng.choice(NAMES)
+                imp = (f"from {facade} import {name} as {other}", {"t": "from", "module": facade, "name": name, "as": other})
+                ref = other
+            elif style == "facade-dotted":
+                imp = (f"import {facade}", {"t": "import", "module": facade, "as": None})
+                ref = f"{facade}.{name}"
+            elif style == "facade-chain":
+                second = rng.choice([m for m in MODULES if m not in (mod, facade)])
+                tail[second].append((f"from {facade} import {name}", {"t": "from", "module": facade, "name": name}))
+                imp = (f"from {second} import {name}", {"t": "from", "module": second, "name": name})
+                ref = name
+            elif style == "facade-all-name":
+                imp = (f"from {facade}.{name} import __all__ as {name}", {"t": "from", "module": f"{facade}.{name}", "name": "__all__", "as": name})
+                ref, bare = name, True
+            else:   # facade-wildcard: the name only arrives through a wildcard import of the facade
+                imp = (f"from {facade} import *", {"t": "wild", "module": facade})
+                ref = name
+        expr = ref if bare else f"{ref}.__all__"
+        form = rng.choice(COMPOSITIONS)
+        composed = compose_all(rng, [own], expr, form)
+        desc = {"t": "allref", "ref": ref, "bare": bare, "names": [own]}
+        if form == "augment" and imp is not None:
+            # the runtime-valid spelling of a circular composition: assign, import, augment
+            first, second_ = composed.split("\n")
+            body.append((first, {"t": "all", "names": [own]}))
+            body.append(imp)
+            body.append((second_, desc))
+        else:
+            if imp is not None:
+                body.append(imp)
+            if form == "augment-only" and rng.random() < 0.7:
+                body.append((f"__all__ = [{own!r}]", {"t": "all", "names": [own]}))
+            body.append((composed, desc))
+        if "." in nxt and nxt in MODULES and rng.random() < 0.3:
+            body.insert(rng.randrange(len(body) + 1), (f"from {nxt} import *", {"t": "wild", "module": nxt}))
+    files: dict[str, str] = {}
+    descs: dict[str, list[dict]] = {}
+    for mod in MODULES:
+        both = stmts[mod] + tail[mod] if rng.random() < 0.5 else tail[mod] + stmts[mod]
+        if not both and rng.random() < 0.3:
+            both = [gen_statement(rng, mod, True)]
+        files[mod_file(mod)] = "".join(s + "\n" for s, _ in both)
+        descs[mod] = [d for _, d in both]
+    return files, descs
+
+
+def bindings(descs: dict[str, list[dict]]) -> dict[str, dict[str, str | None]]:
+    """Per module: name -> dotted path it is an alias of (None for a local definition); the last binding wins."""
+    out: dict[str, dict[str, str | None]] = {}
+    for mod, ds in descs.items():
+        table: dict[str, str | None] = {}
+        for d in ds:
+            if d["t"] == "def":
+                table[d["name"]] = None
+            elif d["t"] == "from":
+                base = absolute(mod, d)
+                if base is not None:
+                    table[d.get("as") or d["name"]] = f"{base}.{d['name']}" if base else d["name"]
+            elif d["t"] == "import":
+                if d.get("as"):
+                    table[d["as"]] = d["module"]
+                else:
+                    top = d["module"].split(".")[0]
+                    table[top] = top
+        out[mod] = table
+    return out
+
+
+def follow(path: str, table: dict[str, dict[str, str | None]], budget: int = 12) -> tuple[str | None, bool]:
+    """Walk a dotted path down the static module tree, going through name bindings where a component is not a submodule.
+    Returns (module reached or None, whether an alias binding was crossed)."""
+    crossed = False
+    while budget > 0:
+        budget -= 1
+        parts = path.split(".")
+        if parts[0] not in table:
+            return None, crossed
+        cur = parts[0]
+        for i, comp in enumerate(parts[1:], 1):
+            if f"{cur}.{comp}" in table:
+                cur = f"{cur}.{comp}"
+                continue
+            if comp in table[cur] and table[cur][comp] is not None:
+                crossed = True
+                path = ".".join([table[cur][comp], *parts[i + 1:]])
+                break
+            return None, crossed
+        else:
+            return cur, crossed
+    return None, crossed
+
+
+def export_hops(descs: dict[str, list[dict]]) -> list[tuple[str, str | None, bool, str | None]]:
+    """For every ``__all__`` composition: (module holding it, module whose ``__all__`` it names or None, whether naming it
+    crosses an alias *after* the first name was looked up in the module's own scope -- i.e. the dotted path that names the
+    other module is not that module's real path, that dotted path)."""
+    table = bindings(descs)
+    hops = []
+    for mod, ds in descs.items():
+        for d in ds:
+            if d["t"] != "allref":
+                continue
+            if not d["ref"]:
+                hops.append((mod, mod, False, mod))
+                continue
+            head, _, rest = d["ref"].partition(".")
+            scope = table.get(mod, {})
+            if head in scope:
+                start = scope[head] if scope[head] is not None else f"{mod}.{head}"
+            else:
+                start = head
+            full = start + (f".{rest}" if rest else "")
+            if d["bare"]:   # the name stands for the list: its target is `<module path>.__all__`
+                if "." not in full:
+                    hops.append((mod, None, False, None))
+                    continue
+                full = full.rsplit(".", 1)[0]
+            reached, crossed = follow(full, table)
+            hops.append((mod, reached, crossed, full))
+    return hops
+
+
+def export_cycles(descs: dict[str, list[dict]], loaded: set[str] | None = None) -> tuple[bool, bool]:
+    """(some cycle of ``__all__`` compositions exists, some such cycle has every hop crossing an alias)."""
+    hops = [(a, b, c) for a, b, c, _ in export_hops(descs) if b is not None and (loaded is None or (a.split(".")[0] in loaded and b.split(".")[0] in loaded))]
+
+    def cyclic(edges: list[tuple[str, str]]) -> bool:
+        nxt: dict[str, set[str]] = {}
+        for a, b in edges:
+            nxt.setdefault(a, set()).add(b)
+        for start in nxt:
+            seen, todo = set(), list(nxt[start])
+            while todo:
+                m = todo.pop()
+                if m == start:
+                    return True
+                if m not in seen:
+                    seen.add(m)
+                    todo.extend(nxt.get(m, ()))
+        return False
+
+    return cyclic([(a, b) for a, b, _ in hops]), cyclic([(a, b) for a, b, c in hops if c])
